@@ -21,6 +21,7 @@ def obligations(ctx: Ctx):
         Ob(f"{P}.F1", "F", "no file-system mutation before the dry-run return of execute, none in its callees", FUNCS[:1], FP.ob_mutations_after_dry_return),
         Ob(f"{P}.F2", "F", "WriteTool.execute: mkstemp(same dir) / cleanup-and-reraise / fchmod, write+flush+fsync, verify, os.replace last; nothing else writes the target", FUNCS[:1], FP.ob_protocol(FP.WRITE, "WriteTool.execute", "target_path", "canonical_content", "wt_overwrite_hashok")),
         Ob(f"{P}.F3", "F", "atomic_write_octave: the same temp-file protocol", FUNCS[1:], FP.ob_protocol(FP.FOPS, "atomic_write_octave", "target_path", "content", "at_overwrite_hashok")),
+        Ob(f"{P}.F5", "F", "execute reports success only from the dry-run branch or after the write block (no early success return)", FUNCS[:1], FP.ob_success_after_replace),
         Ob(f"{P}.F4", "F", "canonical_hash is the hash of exactly the text written", FUNCS[:1], FP.ob_hash_of_written),
     ]
     try:
